@@ -227,6 +227,11 @@ func (e *Enc) run() {
 			e.emitAssert(-1, t)
 			e.assumptions["assume in "+e.fnName+": "+c.Text] = true
 		}
+		for _, c := range e.Ct.ObjInv {
+			t := e.evalHyp(c.Expr, env)
+			e.emitAssert(-1, t)
+			e.assumptions["object invariant relied on in "+e.fnName+" (re-established by every writer: onstore obligations and onstore-coverage): "+c.Text] = true
+		}
 		for _, ax := range e.CS.Axioms {
 			_ = ax
 		}
@@ -496,10 +501,13 @@ type loopMods struct {
 	cells map[Sort][][3]string
 	// ghostCells: some recorded cell belongs to a ghost variable (updated by a callee's contract inside the loop)
 	ghostCells bool
+	// fresh: objects allocated inside the loop are written in this sort (they did not exist at loop entry, so the
+	// frame for pre-existing objects still holds)
+	fresh map[Sort]bool
 }
 
 func (e *Enc) loopModifies(li *loopInfo) *loopMods {
-	lm := &loopMods{sorts: map[Sort][]string{}, unk: map[Sort]bool{}, cells: map[Sort][][3]string{}}
+	lm := &loopMods{sorts: map[Sort][]string{}, unk: map[Sort]bool{}, cells: map[Sort][][3]string{}, fresh: map[Sort]bool{}}
 	inLoop := func(v ssa.Value) bool {
 		if ins, ok := v.(ssa.Instruction); ok && ins.Block() != nil {
 			return li.blocks[ins.Block().Index]
@@ -540,8 +548,8 @@ func (e *Enc) loopModifies(li *loopInfo) *loopMods {
 				b := e.val(x)
 				return b.L[0], true
 			}
-			// allocated in the loop: fresh object each iteration; not expressible as invariant base
-			return "", false
+			// allocated in the loop: a fresh object each iteration (it did not exist at loop entry)
+			return "@fresh", true
 		}
 		if !inLoop(v) {
 			b := e.val(v)
@@ -568,9 +576,23 @@ func (e *Enc) loopModifies(li *loopInfo) *loopMods {
 				}
 			}
 		}
+		if ia, isIA := addr.(*ssa.IndexAddr); isIA && !inLoop(ia.X) {
+			// an element of a slice that does not change in the loop: the write stays inside the slice's cells
+			if sl, isSlice := ia.X.Type().Underlying().(*types.Slice); isSlice {
+				if b := e.val(ia.X); !b.Bad && len(b.L) == 4 {
+					hi := e.M.iadd(b.L[1], e.M.imul(b.L[2], e.M.ilit(slots(sl.Elem()))))
+					for s := range sorts {
+						lm.cells[s] = append(lm.cells[s], [3]string{b.L[0], b.L[1], hi})
+					}
+					return
+				}
+			}
+		}
 		base, ok := baseOf(addr)
 		for s := range sorts {
-			if ok {
+			if ok && base == "@fresh" {
+				lm.fresh[s] = true
+			} else if ok {
 				lm.sorts[s] = append(lm.sorts[s], base)
 			} else {
 				lm.unk[s] = true
@@ -592,20 +614,14 @@ func (e *Enc) loopModifies(li *loopInfo) *loopMods {
 					sorts := map[Sort]bool{}
 					e.allSorts(derefType(a.Type()), sorts)
 					for s := range sorts {
-						lm.unk[s] = true
-						if _, has := lm.sorts[s]; !has {
-							lm.sorts[s] = nil
-						}
+						lm.fresh[s] = true
 					}
 				}
 				if a, ok := x.(*ssa.MakeSlice); ok {
 					sorts := map[Sort]bool{}
 					e.allSorts(a.Type().Underlying().(*types.Slice).Elem(), sorts)
 					for s := range sorts {
-						lm.unk[s] = true
-						if _, has := lm.sorts[s]; !has {
-							lm.sorts[s] = nil
-						}
+						lm.fresh[s] = true
 					}
 				}
 			case *ssa.Convert:
@@ -614,10 +630,7 @@ func (e *Enc) loopModifies(li *loopInfo) *loopMods {
 					sorts := map[Sort]bool{}
 					e.allSorts(x.Type().Underlying().(*types.Slice).Elem(), sorts)
 					for s := range sorts {
-						lm.unk[s] = true
-						if _, has := lm.sorts[s]; !has {
-							lm.sorts[s] = nil
-						}
+						lm.fresh[s] = true // the conversion allocates a new backing array
 					}
 				}
 			case ssa.CallInstruction:
@@ -638,9 +651,16 @@ func (e *Enc) loopModifies(li *loopInfo) *loopMods {
 			case *ssa.Next:
 				// range over a string: the iterator object's position cell advances
 				if x.IsString {
-					if it, ok := e.vals[x.Iter]; ok && !it.Bad && len(it.L) == 1 {
+					if inLoop(x.Iter) {
+						lm.fresh[SIter] = true // the iterator itself is created inside this loop (a nested range)
+					} else if it, ok := e.vals[x.Iter]; ok && !it.Bad && len(it.L) == 1 {
 						lm.cells[SIter] = append(lm.cells[SIter], [3]string{it.L[0], e.M.ilit(0), e.M.ilit(1)})
 					}
+				}
+			case *ssa.Range:
+				if bt, ok := x.X.Type().Underlying().(*types.Basic); ok && bt.Info()&types.IsString != 0 {
+					lm.fresh[SIter] = true
+					lm.allocs = true
 				}
 			case *ssa.MapUpdate, *ssa.Send:
 				// maps are not modelled in the heap
@@ -751,6 +771,23 @@ func (e *Enc) callCells(c ssa.CallInstruction, inLoop func(ssa.Value) bool, lm *
 				continue
 			}
 		}
+		// a target rooted at an argument that is an object allocated inside the loop: a fresh object is written
+		if root := modRootIdent(mc.Expr); root != "" {
+			if av := argOf[root]; av != nil && inLoop(av) {
+				if al, isAlloc := av.(*ssa.Alloc); isAlloc {
+					sorts := map[Sort]bool{}
+					if c, isCall := mc.Expr.(*ast.CallExpr); isCall && callNameOf(c) == "bstr" {
+						sorts[SStr] = true
+					} else {
+						e.allSorts(derefType(al.Type()), sorts)
+					}
+					for s := range sorts {
+						lm.fresh[s] = true
+					}
+					continue
+				}
+			}
+		}
 		if ix, isIx := mc.Expr.(*ast.IndexExpr); isIx {
 			// x[*]: only for a slice argument cut from an array field of an invariant struct
 			id, isID := ix.X.(*ast.Ident)
@@ -785,6 +822,27 @@ func (e *Enc) callCells(c ssa.CallInstruction, inLoop func(ssa.Value) bool, lm *
 		}
 	}
 	return true
+}
+
+// modRootIdent: the parameter a modifies target is rooted at (b in bstr(b), p in p.f, x in x[*], p in *p).
+func modRootIdent(x ast.Expr) string {
+	switch n := x.(type) {
+	case *ast.Ident:
+		return n.Name
+	case *ast.CallExpr:
+		if len(n.Args) == 1 {
+			return modRootIdent(n.Args[0])
+		}
+	case *ast.SelectorExpr:
+		return modRootIdent(n.X)
+	case *ast.IndexExpr:
+		return modRootIdent(n.X)
+	case *ast.StarExpr:
+		return modRootIdent(n.X)
+	case *ast.ParenExpr:
+		return modRootIdent(n.X)
+	}
+	return ""
 }
 
 func (e *Enc) loopHead(li *loopInfo, st *State, phiIn map[ssa.Value]Val) {
@@ -865,6 +923,9 @@ func (e *Enc) loopHead(li *loopInfo, st *State, phiIn map[ssa.Value]Val) {
 		for s := range lm.cells {
 			sortSet[string(s)] = true
 		}
+		for s := range lm.fresh {
+			sortSet[string(s)] = true
+		}
 		var ss []string
 		for s := range sortSet {
 			ss = append(ss, s)
@@ -883,6 +944,10 @@ func (e *Enc) loopHead(li *loopInfo, st *State, phiIn map[ssa.Value]Val) {
 			// only those cells change
 			I := m.smtSort(SI)
 			var ne []string
+			if lm.fresh[s] {
+				// objects allocated in the loop are written too: the frame speaks about pre-existing objects only
+				ne = append(ne, m.ilt("o", li.preState.Alloc))
+			}
 			seen := map[string]bool{}
 			for _, bo := range lm.sorts[s] {
 				if !seen[bo] {
